@@ -1,5 +1,5 @@
 """C07 — dual hashes: canonical storage discipline of the RLE side table (structural clauses)."""
-from ..rules import tail, fields, eqord, parser, panic, rle, normal, casts, vis, features, summary, beliefs
+from ..rules import tail, fields, eqord, parser, panic, rle, normal, casts, vis, features, summary, beliefs, data
 
 EXPL = ("Decides: SA-TAIL: on every construction route the RLE block is terminator-filled from the encoder's final offset to the end and "
         "the normalised block hash is zero-filled from its stored length; every write into an RLE block anywhere in the crate is "
@@ -36,6 +36,7 @@ def run(ctx):
             ctx.guard("C07", "twins", lambda: features.twins(ctx, prog, scope='FuzzyHashDualData', floor=2))
         ctx.guard("C07", "casts", lambda: casts.census(ctx, prog, scope='hash_dual::', floor=3))
         ctx.guard("C07", "parse-forms", lambda: parser.entry_forms(ctx, prog))
+        ctx.guard("C07", "const values", lambda: data.const_census(ctx, prog, data.CONST_SCOPES["C07"], floor=1))
         ctx.guard("C07", "summaries", lambda: summary.check(ctx, prog, 'hash_dual::', floor=10))
         ctx.guard("C07", "generic consts", lambda: summary.check_consts(ctx, prog, floor=13))
         ctx.guard("C07", "path summaries", lambda: summary.check_paths(ctx, prog, 'hash_dual::', floor=4))
